@@ -69,6 +69,27 @@ CHECKS.update({
     ),
 })
 
+CHECKS.update({
+    "C07": (
+        "complete grid of quantity x cell x gdim x facet with random vertices; oracle = geometry computed directly from the vertices",
+        "Every geometric quantity handled by the lowering on every admissible (cell, gdim, facet, ridge, preserve set) "
+        "grid point, each with random non-degenerate vertex sets; the lowered expression evaluated with Jacobian / "
+        "reference-cell terminals must equal the quantity computed from vertex coordinates.",
+        "Trusts vf/refcell.py (Gram determinants, circumcentre solve, numpy pinv) and the FEniCS reference-cell "
+        "numbering; CellNormal by validity predicate.",
+        "4/C07",
+    ),
+    "C08": (
+        "generated element compositions; oracle = own push-forward table applied to random reference values",
+        "Recursive Hypothesis strategy over all pull-back kinds, block-shaped (row-wise) reference values, nested "
+        "mixed and heterogeneous symmetric elements on flat and immersed cells; apply_function_pullbacks(f) evaluated "
+        "with ReferenceValue(f) := r must equal the table's push-forward of r, with FunctionSpace.value_shape; "
+        "grad(f) is checked through jets.",
+        "Trusts the push-forward table of DESIGN 7.2.",
+        "4/C08",
+    ),
+})
+
 NOT_YET = {}
 
 
